@@ -188,3 +188,50 @@ Proof.
   eapply Forall_impl; [|exact A]. cbn beta. intros T HT.
   assert (E : (9 # 10) * res + res / 9 == (91 # 90) * res) by field. rewrite <- E. exact HT.
 Qed.
+
+(* ---------------- spline control points ---------------- *)
+Section SplineControlsThm.
+  Variable A : Type.
+  Variable eqb : A -> A -> bool.
+  Hypothesis eqb_spec : forall a b, eqb a b = true <-> a = b.
+
+  (* full is obtained from short by repeating elements in place *)
+  Inductive expands : list A -> list A -> Prop :=
+  | ex_nil : expands [] []
+  | ex_next x c f : expands c f -> expands (x :: c) (x :: f)
+  | ex_rep x c f : expands (x :: c) (x :: f) -> expands (x :: c) (x :: x :: f).
+
+  Lemma controls_go_expands : forall pts lastc, expands (lastc :: controls_go A eqb lastc pts) (lastc :: pts).
+  Proof.
+    induction pts as [|p pts IH]; intros lastc; cbn [controls_go]; [constructor; constructor|].
+    destruct (eqb p lastc) eqn:E.
+    - apply eqb_spec in E. subst p. apply ex_rep. apply IH.
+    - apply ex_next. apply IH.
+  Qed.
+
+  Lemma controls_go_nodup : forall pts lastc,
+    match controls_go A eqb lastc pts with x :: _ => x <> lastc | [] => True end /\
+    (forall pre a b post, controls_go A eqb lastc pts = pre ++ a :: b :: post -> a <> b).
+  Proof.
+    induction pts as [|p pts IH]; intros lastc; cbn [controls_go]; [split; [exact I|intros [|? ?] ? ? ? H; discriminate]|].
+    destruct (eqb p lastc) eqn:E; [apply IH|].
+    assert (Hne : p <> lastc) by (intros ->; assert (eqb lastc lastc = true) by (apply eqb_spec; reflexivity); congruence).
+    split; [exact Hne|]. destruct (IH p) as [Hh Ht]. intros pre a b post H. destruct pre as [|x pre]; cbn in H.
+    - injection H as <- H. rewrite H in Hh. intros ->. apply Hh. reflexivity.
+    - injection H as _ H. apply (Ht pre a b post H).
+  Qed.
+
+  (* the interpolant is built on: the current position first, then the given points in their order, every point kept
+     (a later return to an earlier point included), only immediate repetitions merged: the given list is exactly the
+     control list with some elements repeated in place, and no two neighbouring controls are equal *)
+  Theorem spline_controls_spec origin pts :
+    hd_error (spline_controls A eqb origin pts) = Some origin /\
+    expands (spline_controls A eqb origin pts) (origin :: pts) /\
+    (forall pre a b post, spline_controls A eqb origin pts = pre ++ a :: b :: post -> a <> b).
+  Proof.
+    unfold spline_controls. split; [reflexivity|]. split; [apply controls_go_expands|].
+    destruct (controls_go_nodup pts origin) as [Hh Ht]. intros pre a b post H. destruct pre as [|x pre]; cbn in H.
+    - injection H as <- H. rewrite H in Hh. intros ->. apply Hh. reflexivity.
+    - injection H as _ H. apply (Ht pre a b post H).
+  Qed.
+End SplineControlsThm.
